@@ -1,5 +1,6 @@
 import NaijaVerif.Model.Analysis
 import NaijaVerif.Lemmas.AnalysisCheck
+import NaijaVerif.Lemmas.AnalysisLiveMono
 import NaijaVerif.Model.CfgCount
 import NaijaVerif.Gen.Caps
 import NaijaVerif.Driver.AstIO
@@ -133,7 +134,16 @@ def answer (line : String) : String :=
           let total := (sortDedup plan.stmts).length + plan.fns.length
           let proved := if ok then (sortDedup p'.stmts).length + p'.fns.length else 0
           let unr := (sortDedup (unreachable root)).length
-          s!"cover total={total} proved={proved} unreach={unr} fns={plan.fns.length} ok={if ok then 1 else 0}"
+          -- the liveness theorem `c03_full_checked`: its decidable hypothesis `modelOkB` (with a breakdown)
+          let c := mkCtx root facts
+          let distinct := decide (((rows root).map (·.sid)).Nodup)
+          let glob := C03.globalOkB root facts
+          let unused := c.unusedFns.map (·.2)
+          let fnsOk := plan.fns.all (fun g => unused.contains g)
+          let rootOk := C03.rootOkB (C03.lsetupOf root facts (some plan) (C03.safe2B c)) root
+          let live := C03.modelOkB root facts && fnsOk
+          let b := fun (x : Bool) => if x then 1 else 0
+          s!"cover total={total} proved={proved} unreach={unr} fns={plan.fns.length} ok={b ok} live={b live} distinct={b distinct} global={b glob} fnsok={b fnsOk} rootok={b rootOk}"
       | _, _ => "cover malformed"
   | _ => "bad-op"
 
